@@ -255,6 +255,7 @@ func runC10(c *report.Ctx) {
 	ruleLayout(c, []string{"game-history-key", "credit-value"}, 15)
 	ruleFlagByteRMW(c)
 	ruleMaturityPerTemplate(c)
+	ruleRelevantIndexStored(c)
 }
 
 // ruleClassBits: bit masks OR-ed into byte 8 of a credit value by the writers vs the reader's decode.
